@@ -73,6 +73,30 @@ class Z3Enc:
         self.memo[t._id] = r
         return r
 
+    def _log_anchor(self, lt, c):
+        """sound monotonicity facts relating l = log(u) to the constant c it is compared with:
+        u > E_hi => l > c and u < E_lo => l < c, with rationals E_lo < exp(c) < E_hi (mpmath, 40
+        digits, rounded outwards by 1e-30 relative)."""
+        key = ("anchor", lt._id, c)
+        if key in self.atoms:
+            return
+        self.atoms[key] = True
+        try:
+            import mpmath
+
+            with mpmath.workdps(40):
+                e = mpmath.exp(mpmath.mpf(c.numerator) / mpmath.mpf(c.denominator))
+                lo = Fraction(str(mpmath.nstr(e * (1 - mpmath.mpf(10) ** -30), 38)))
+                hi = Fraction(str(mpmath.nstr(e * (1 + mpmath.mpf(10) ** -30), 38)))
+        except Exception:  # pragma: no cover
+            return
+        l = self.term(lt)
+        u = self.term(lt.args[1])
+        cz = z3.RealVal(str(c.numerator)) / z3.RealVal(str(c.denominator))
+        zlo = z3.RealVal(str(lo.numerator)) / z3.RealVal(str(lo.denominator))
+        zhi = z3.RealVal(str(hi.numerator)) / z3.RealVal(str(hi.denominator))
+        self.axioms += [z3.Implies(u > zhi, l > cz), z3.Implies(z3.And(u > 0, u < zlo), l < cz)]
+
     def cond(self, b):
         if isinstance(b, bool) or type(b).__name__ == "bool_":
             return z3.BoolVal(bool(b))
@@ -82,6 +106,9 @@ class Z3Enc:
         op = b.op
         if op in ("<", "<=", "=="):
             x, y = self.term(b.args[0]), self.term(b.args[1])
+            for lt, ct in ((b.args[0], b.args[1]), (b.args[1], b.args[0])):
+                if lt.op == "f" and lt.args[0] == "log" and ct.is_const:
+                    self._log_anchor(lt, ct.value)
             r = {"<": x < y, "<=": x <= y, "==": x == y}[op]
         elif op == "not":
             r = z3.Not(self.cond(b.args[0]))
